@@ -463,6 +463,141 @@ open BbRe.Sched
 @[simp] theorem leaveS_nextLearner (s : State) (c : Nat) (st : Stream) (op : Op) (code : Nat) : (leaveS s c st op code).nextLearner = s.nextLearner := by simp [leaveS]
 @[simp] theorem leaveS_assigned (s : State) (c : Nat) (st : Stream) (op : Op) (code : Nat) : (leaveS s c st op code).assigned = s.assigned := by simp [leaveS]
 
+@[simp] theorem addOpS_cfg (s : State) (tid : Nat) (t : Task) (inv : List Nat) (prio : Int) : (addOpS s tid t inv prio).cfg = s.cfg := rfl
+@[simp] theorem addOpS_now (s : State) (tid : Nat) (t : Task) (inv : List Nat) (prio : Int) : (addOpS s tid t inv prio).now = s.now := rfl
+@[simp] theorem addOpS_pqs (s : State) (tid : Nat) (t : Task) (inv : List Nat) (prio : Int) : (addOpS s tid t inv prio).pqs = s.pqs := rfl
+@[simp] theorem addOpS_scqs (s : State) (tid : Nat) (t : Task) (inv : List Nat) (prio : Int) : (addOpS s tid t inv prio).scqs = s.scqs := rfl
+@[simp] theorem addOpS_workers (s : State) (tid : Nat) (t : Task) (inv : List Nat) (prio : Int) : (addOpS s tid t inv prio).workers = s.workers := rfl
+@[simp] theorem addOpS_dedup (s : State) (tid : Nat) (t : Task) (inv : List Nat) (prio : Int) : (addOpS s tid t inv prio).dedup = s.dedup := rfl
+@[simp] theorem addOpS_cleanup (s : State) (tid : Nat) (t : Task) (inv : List Nat) (prio : Int) : (addOpS s tid t inv prio).cleanup = s.cleanup := rfl
+@[simp] theorem addOpS_streams (s : State) (tid : Nat) (t : Task) (inv : List Nat) (prio : Int) : (addOpS s tid t inv prio).streams = s.streams := rfl
+@[simp] theorem addOpS_terms (s : State) (tid : Nat) (t : Task) (inv : List Nat) (prio : Int) : (addOpS s tid t inv prio).terms = s.terms := rfl
+@[simp] theorem addOpS_nextTask (s : State) (tid : Nat) (t : Task) (inv : List Nat) (prio : Int) : (addOpS s tid t inv prio).nextTask = s.nextTask := rfl
+@[simp] theorem addOpS_nextLearner (s : State) (tid : Nat) (t : Task) (inv : List Nat) (prio : Int) : (addOpS s tid t inv prio).nextLearner = s.nextLearner := rfl
+@[simp] theorem addOpS_events (s : State) (tid : Nat) (t : Task) (inv : List Nat) (prio : Int) : (addOpS s tid t inv prio).events = s.events := rfl
+@[simp] theorem addOpS_assigned (s : State) (tid : Nat) (t : Task) (inv : List Nat) (prio : Int) : (addOpS s tid t inv prio).assigned = s.assigned := rfl
+
+@[simp] theorem newTaskS_cfg (s : State) (digest dkey : Nat) (dnc : Bool) (q : ScqId) (inv : List Nat) (prio : Int) : (newTaskS s digest dkey dnc q inv prio).cfg = s.cfg := by unfold newTaskS; split <;> rfl
+@[simp] theorem newTaskS_now (s : State) (digest dkey : Nat) (dnc : Bool) (q : ScqId) (inv : List Nat) (prio : Int) : (newTaskS s digest dkey dnc q inv prio).now = s.now := by unfold newTaskS; split <;> rfl
+@[simp] theorem newTaskS_pqs (s : State) (digest dkey : Nat) (dnc : Bool) (q : ScqId) (inv : List Nat) (prio : Int) : (newTaskS s digest dkey dnc q inv prio).pqs = s.pqs := by unfold newTaskS; split <;> rfl
+@[simp] theorem newTaskS_scqs (s : State) (digest dkey : Nat) (dnc : Bool) (q : ScqId) (inv : List Nat) (prio : Int) : (newTaskS s digest dkey dnc q inv prio).scqs = s.scqs := by unfold newTaskS; split <;> rfl
+@[simp] theorem newTaskS_workers (s : State) (digest dkey : Nat) (dnc : Bool) (q : ScqId) (inv : List Nat) (prio : Int) : (newTaskS s digest dkey dnc q inv prio).workers = s.workers := by unfold newTaskS; split <;> rfl
+@[simp] theorem newTaskS_cleanup (s : State) (digest dkey : Nat) (dnc : Bool) (q : ScqId) (inv : List Nat) (prio : Int) : (newTaskS s digest dkey dnc q inv prio).cleanup = s.cleanup := by unfold newTaskS; split <;> rfl
+@[simp] theorem newTaskS_streams (s : State) (digest dkey : Nat) (dnc : Bool) (q : ScqId) (inv : List Nat) (prio : Int) : (newTaskS s digest dkey dnc q inv prio).streams = s.streams := by unfold newTaskS; split <;> rfl
+@[simp] theorem newTaskS_terms (s : State) (digest dkey : Nat) (dnc : Bool) (q : ScqId) (inv : List Nat) (prio : Int) : (newTaskS s digest dkey dnc q inv prio).terms = s.terms := by unfold newTaskS; split <;> rfl
+@[simp] theorem newTaskS_assigned (s : State) (digest dkey : Nat) (dnc : Bool) (q : ScqId) (inv : List Nat) (prio : Int) : (newTaskS s digest dkey dnc q inv prio).assigned = s.assigned := by unfold newTaskS; split <;> rfl
+
+@[simp] theorem parkS_cfg (s : State) (wk : Worker) : (parkS s wk).cfg = s.cfg := rfl
+@[simp] theorem parkS_now (s : State) (wk : Worker) : (parkS s wk).now = s.now := rfl
+@[simp] theorem parkS_pqs (s : State) (wk : Worker) : (parkS s wk).pqs = s.pqs := rfl
+@[simp] theorem parkS_scqs (s : State) (wk : Worker) : (parkS s wk).scqs = s.scqs := rfl
+@[simp] theorem parkS_tasks (s : State) (wk : Worker) : (parkS s wk).tasks = s.tasks := rfl
+@[simp] theorem parkS_ops (s : State) (wk : Worker) : (parkS s wk).ops = s.ops := rfl
+@[simp] theorem parkS_dedup (s : State) (wk : Worker) : (parkS s wk).dedup = s.dedup := rfl
+@[simp] theorem parkS_cleanup (s : State) (wk : Worker) : (parkS s wk).cleanup = s.cleanup := rfl
+@[simp] theorem parkS_streams (s : State) (wk : Worker) : (parkS s wk).streams = s.streams := rfl
+@[simp] theorem parkS_terms (s : State) (wk : Worker) : (parkS s wk).terms = s.terms := rfl
+@[simp] theorem parkS_nextTask (s : State) (wk : Worker) : (parkS s wk).nextTask = s.nextTask := rfl
+@[simp] theorem parkS_nextOp (s : State) (wk : Worker) : (parkS s wk).nextOp = s.nextOp := rfl
+@[simp] theorem parkS_nextLearner (s : State) (wk : Worker) : (parkS s wk).nextLearner = s.nextLearner := rfl
+@[simp] theorem parkS_events (s : State) (wk : Worker) : (parkS s wk).events = s.events := rfl
+@[simp] theorem parkS_assigned (s : State) (wk : Worker) : (parkS s wk).assigned = s.assigned := rfl
+
+@[simp] theorem drainWaitS_cfg (s : State) (wk : Worker) (sq : Scq) : (drainWaitS s wk sq).cfg = s.cfg := rfl
+@[simp] theorem drainWaitS_now (s : State) (wk : Worker) (sq : Scq) : (drainWaitS s wk sq).now = s.now := rfl
+@[simp] theorem drainWaitS_pqs (s : State) (wk : Worker) (sq : Scq) : (drainWaitS s wk sq).pqs = s.pqs := rfl
+@[simp] theorem drainWaitS_scqs (s : State) (wk : Worker) (sq : Scq) : (drainWaitS s wk sq).scqs = s.scqs := rfl
+@[simp] theorem drainWaitS_tasks (s : State) (wk : Worker) (sq : Scq) : (drainWaitS s wk sq).tasks = s.tasks := rfl
+@[simp] theorem drainWaitS_ops (s : State) (wk : Worker) (sq : Scq) : (drainWaitS s wk sq).ops = s.ops := rfl
+@[simp] theorem drainWaitS_dedup (s : State) (wk : Worker) (sq : Scq) : (drainWaitS s wk sq).dedup = s.dedup := rfl
+@[simp] theorem drainWaitS_cleanup (s : State) (wk : Worker) (sq : Scq) : (drainWaitS s wk sq).cleanup = s.cleanup := rfl
+@[simp] theorem drainWaitS_streams (s : State) (wk : Worker) (sq : Scq) : (drainWaitS s wk sq).streams = s.streams := rfl
+@[simp] theorem drainWaitS_terms (s : State) (wk : Worker) (sq : Scq) : (drainWaitS s wk sq).terms = s.terms := rfl
+@[simp] theorem drainWaitS_nextTask (s : State) (wk : Worker) (sq : Scq) : (drainWaitS s wk sq).nextTask = s.nextTask := rfl
+@[simp] theorem drainWaitS_nextOp (s : State) (wk : Worker) (sq : Scq) : (drainWaitS s wk sq).nextOp = s.nextOp := rfl
+@[simp] theorem drainWaitS_nextLearner (s : State) (wk : Worker) (sq : Scq) : (drainWaitS s wk sq).nextLearner = s.nextLearner := rfl
+@[simp] theorem drainWaitS_events (s : State) (wk : Worker) (sq : Scq) : (drainWaitS s wk sq).events = s.events := rfl
+@[simp] theorem drainWaitS_assigned (s : State) (wk : Worker) (sq : Scq) : (drainWaitS s wk sq).assigned = s.assigned := rfl
+
+@[simp] theorem addScq_cfg (s : State) (q : ScqId) : (addScq s q).cfg = s.cfg := rfl
+@[simp] theorem addScq_now (s : State) (q : ScqId) : (addScq s q).now = s.now := rfl
+@[simp] theorem addScq_pqs (s : State) (q : ScqId) : (addScq s q).pqs = s.pqs := rfl
+@[simp] theorem addScq_workers (s : State) (q : ScqId) : (addScq s q).workers = s.workers := rfl
+@[simp] theorem addScq_tasks (s : State) (q : ScqId) : (addScq s q).tasks = s.tasks := rfl
+@[simp] theorem addScq_ops (s : State) (q : ScqId) : (addScq s q).ops = s.ops := rfl
+@[simp] theorem addScq_dedup (s : State) (q : ScqId) : (addScq s q).dedup = s.dedup := rfl
+@[simp] theorem addScq_cleanup (s : State) (q : ScqId) : (addScq s q).cleanup = s.cleanup := rfl
+@[simp] theorem addScq_streams (s : State) (q : ScqId) : (addScq s q).streams = s.streams := rfl
+@[simp] theorem addScq_terms (s : State) (q : ScqId) : (addScq s q).terms = s.terms := rfl
+@[simp] theorem addScq_nextTask (s : State) (q : ScqId) : (addScq s q).nextTask = s.nextTask := rfl
+@[simp] theorem addScq_nextOp (s : State) (q : ScqId) : (addScq s q).nextOp = s.nextOp := rfl
+@[simp] theorem addScq_nextLearner (s : State) (q : ScqId) : (addScq s q).nextLearner = s.nextLearner := rfl
+@[simp] theorem addScq_events (s : State) (q : ScqId) : (addScq s q).events = s.events := rfl
+@[simp] theorem addScq_assigned (s : State) (q : ScqId) : (addScq s q).assigned = s.assigned := rfl
+
+@[simp] theorem addPqScq_cfg (s : State) (q : ScqId) (comps : List Nat) (pf : Nat) : (addPqScq s q comps pf).cfg = s.cfg := rfl
+@[simp] theorem addPqScq_now (s : State) (q : ScqId) (comps : List Nat) (pf : Nat) : (addPqScq s q comps pf).now = s.now := rfl
+@[simp] theorem addPqScq_workers (s : State) (q : ScqId) (comps : List Nat) (pf : Nat) : (addPqScq s q comps pf).workers = s.workers := rfl
+@[simp] theorem addPqScq_tasks (s : State) (q : ScqId) (comps : List Nat) (pf : Nat) : (addPqScq s q comps pf).tasks = s.tasks := rfl
+@[simp] theorem addPqScq_ops (s : State) (q : ScqId) (comps : List Nat) (pf : Nat) : (addPqScq s q comps pf).ops = s.ops := rfl
+@[simp] theorem addPqScq_dedup (s : State) (q : ScqId) (comps : List Nat) (pf : Nat) : (addPqScq s q comps pf).dedup = s.dedup := rfl
+@[simp] theorem addPqScq_cleanup (s : State) (q : ScqId) (comps : List Nat) (pf : Nat) : (addPqScq s q comps pf).cleanup = s.cleanup := rfl
+@[simp] theorem addPqScq_streams (s : State) (q : ScqId) (comps : List Nat) (pf : Nat) : (addPqScq s q comps pf).streams = s.streams := rfl
+@[simp] theorem addPqScq_terms (s : State) (q : ScqId) (comps : List Nat) (pf : Nat) : (addPqScq s q comps pf).terms = s.terms := rfl
+@[simp] theorem addPqScq_nextTask (s : State) (q : ScqId) (comps : List Nat) (pf : Nat) : (addPqScq s q comps pf).nextTask = s.nextTask := rfl
+@[simp] theorem addPqScq_nextOp (s : State) (q : ScqId) (comps : List Nat) (pf : Nat) : (addPqScq s q comps pf).nextOp = s.nextOp := rfl
+@[simp] theorem addPqScq_nextLearner (s : State) (q : ScqId) (comps : List Nat) (pf : Nat) : (addPqScq s q comps pf).nextLearner = s.nextLearner := rfl
+@[simp] theorem addPqScq_events (s : State) (q : ScqId) (comps : List Nat) (pf : Nat) : (addPqScq s q comps pf).events = s.events := rfl
+@[simp] theorem addPqScq_assigned (s : State) (q : ScqId) (comps : List Nat) (pf : Nat) : (addPqScq s q comps pf).assigned = s.assigned := rfl
+
+@[simp] theorem addWorker_cfg (s : State) (q : ScqId) (w : WId) : (addWorker s q w).cfg = s.cfg := rfl
+@[simp] theorem addWorker_now (s : State) (q : ScqId) (w : WId) : (addWorker s q w).now = s.now := rfl
+@[simp] theorem addWorker_pqs (s : State) (q : ScqId) (w : WId) : (addWorker s q w).pqs = s.pqs := rfl
+@[simp] theorem addWorker_scqs (s : State) (q : ScqId) (w : WId) : (addWorker s q w).scqs = s.scqs := rfl
+@[simp] theorem addWorker_tasks (s : State) (q : ScqId) (w : WId) : (addWorker s q w).tasks = s.tasks := rfl
+@[simp] theorem addWorker_ops (s : State) (q : ScqId) (w : WId) : (addWorker s q w).ops = s.ops := rfl
+@[simp] theorem addWorker_dedup (s : State) (q : ScqId) (w : WId) : (addWorker s q w).dedup = s.dedup := rfl
+@[simp] theorem addWorker_cleanup (s : State) (q : ScqId) (w : WId) : (addWorker s q w).cleanup = s.cleanup := rfl
+@[simp] theorem addWorker_streams (s : State) (q : ScqId) (w : WId) : (addWorker s q w).streams = s.streams := rfl
+@[simp] theorem addWorker_terms (s : State) (q : ScqId) (w : WId) : (addWorker s q w).terms = s.terms := rfl
+@[simp] theorem addWorker_nextTask (s : State) (q : ScqId) (w : WId) : (addWorker s q w).nextTask = s.nextTask := rfl
+@[simp] theorem addWorker_nextOp (s : State) (q : ScqId) (w : WId) : (addWorker s q w).nextOp = s.nextOp := rfl
+@[simp] theorem addWorker_nextLearner (s : State) (q : ScqId) (w : WId) : (addWorker s q w).nextLearner = s.nextLearner := rfl
+@[simp] theorem addWorker_events (s : State) (q : ScqId) (w : WId) : (addWorker s q w).events = s.events := rfl
+@[simp] theorem addWorker_assigned (s : State) (q : ScqId) (w : WId) : (addWorker s q w).assigned = s.assigned := rfl
+
+@[simp] theorem addTerm_cfg (s : State) (tc : TermCall) : (addTerm s tc).cfg = s.cfg := rfl
+@[simp] theorem addTerm_now (s : State) (tc : TermCall) : (addTerm s tc).now = s.now := rfl
+@[simp] theorem addTerm_pqs (s : State) (tc : TermCall) : (addTerm s tc).pqs = s.pqs := rfl
+@[simp] theorem addTerm_scqs (s : State) (tc : TermCall) : (addTerm s tc).scqs = s.scqs := rfl
+@[simp] theorem addTerm_workers (s : State) (tc : TermCall) : (addTerm s tc).workers = s.workers := rfl
+@[simp] theorem addTerm_tasks (s : State) (tc : TermCall) : (addTerm s tc).tasks = s.tasks := rfl
+@[simp] theorem addTerm_ops (s : State) (tc : TermCall) : (addTerm s tc).ops = s.ops := rfl
+@[simp] theorem addTerm_dedup (s : State) (tc : TermCall) : (addTerm s tc).dedup = s.dedup := rfl
+@[simp] theorem addTerm_cleanup (s : State) (tc : TermCall) : (addTerm s tc).cleanup = s.cleanup := rfl
+@[simp] theorem addTerm_streams (s : State) (tc : TermCall) : (addTerm s tc).streams = s.streams := rfl
+@[simp] theorem addTerm_nextTask (s : State) (tc : TermCall) : (addTerm s tc).nextTask = s.nextTask := rfl
+@[simp] theorem addTerm_nextOp (s : State) (tc : TermCall) : (addTerm s tc).nextOp = s.nextOp := rfl
+@[simp] theorem addTerm_nextLearner (s : State) (tc : TermCall) : (addTerm s tc).nextLearner = s.nextLearner := rfl
+@[simp] theorem addTerm_events (s : State) (tc : TermCall) : (addTerm s tc).events = s.events := rfl
+@[simp] theorem addTerm_assigned (s : State) (tc : TermCall) : (addTerm s tc).assigned = s.assigned := rfl
+
+@[simp] theorem dropTerm_cfg (s : State) (id : Nat) : (dropTerm s id).cfg = s.cfg := rfl
+@[simp] theorem dropTerm_now (s : State) (id : Nat) : (dropTerm s id).now = s.now := rfl
+@[simp] theorem dropTerm_pqs (s : State) (id : Nat) : (dropTerm s id).pqs = s.pqs := rfl
+@[simp] theorem dropTerm_scqs (s : State) (id : Nat) : (dropTerm s id).scqs = s.scqs := rfl
+@[simp] theorem dropTerm_workers (s : State) (id : Nat) : (dropTerm s id).workers = s.workers := rfl
+@[simp] theorem dropTerm_tasks (s : State) (id : Nat) : (dropTerm s id).tasks = s.tasks := rfl
+@[simp] theorem dropTerm_ops (s : State) (id : Nat) : (dropTerm s id).ops = s.ops := rfl
+@[simp] theorem dropTerm_dedup (s : State) (id : Nat) : (dropTerm s id).dedup = s.dedup := rfl
+@[simp] theorem dropTerm_cleanup (s : State) (id : Nat) : (dropTerm s id).cleanup = s.cleanup := rfl
+@[simp] theorem dropTerm_streams (s : State) (id : Nat) : (dropTerm s id).streams = s.streams := rfl
+@[simp] theorem dropTerm_nextTask (s : State) (id : Nat) : (dropTerm s id).nextTask = s.nextTask := rfl
+@[simp] theorem dropTerm_nextOp (s : State) (id : Nat) : (dropTerm s id).nextOp = s.nextOp := rfl
+@[simp] theorem dropTerm_nextLearner (s : State) (id : Nat) : (dropTerm s id).nextLearner = s.nextLearner := rfl
+@[simp] theorem dropTerm_events (s : State) (id : Nat) : (dropTerm s id).events = s.events := rfl
+@[simp] theorem dropTerm_assigned (s : State) (id : Nat) : (dropTerm s id).assigned = s.assigned := rfl
+
 @[simp] theorem assignS_cfg (s : State) (w : Worker) (t : Task) : (assignS s w t).cfg = s.cfg := rfl
 @[simp] theorem assignS_now (s : State) (w : Worker) (t : Task) : (assignS s w t).now = s.now := rfl
 @[simp] theorem assignS_pqs (s : State) (w : Worker) (t : Task) : (assignS s w t).pqs = s.pqs := rfl
@@ -544,6 +679,57 @@ open BbRe.Sched
 @[simp] theorem bgState_ops (s : State) (t : Task) (bq : ScqId) (bl : Nat) (pq : PQ) :
     (bgState s t bq bl pq).ops = aset s.nextOp (bgOp s pq) s.ops := rfl
 @[simp] theorem bumpLearner_nextLearner (s : State) : (bumpLearner s).nextLearner = s.nextLearner + 1 := rfl
+@[simp] theorem succS_events (s : State) (t : Task) (ev : Event) (r : Resp) : (succS s t ev r).events = ev :: s.events := by
+  simp [succS]
+@[simp] theorem succS_tasks (s : State) (t : Task) (ev : Event) (r : Resp) :
+    (succS s t ev r).tasks = aset t.id (bumpGen { t with learner := none, response := some r }) s.tasks := by
+  simp [succS, finalizeS, bumpGen]
+@[simp] theorem retryS_events (s : State) (l : Nat) (r : Resp) :
+    (retryS s l r).events = .learnerFailed l (r.code = cDeadlineExceeded) (some s.nextLearner) :: s.events := rfl
+@[simp] theorem retryS_nextLearner (s : State) (l : Nat) (r : Resp) : (retryS s l r).nextLearner = s.nextLearner + 1 := rfl
+@[simp] theorem setCleanup_cleanup (s : State) (cs : List CleanupEntry) : (setCleanup s cs).cleanup = cs := rfl
+@[simp] theorem setNow_now (s : State) (t : Nat) : (setNow s t).now = t := rfl
+@[simp] theorem eraseOp_ops (s : State) (o : Nat) : (eraseOp s o).ops = aerase o s.ops := rfl
+@[simp] theorem dropStream_streams (s : State) (c : Nat) : (dropStream s c).streams = s.streams.filter (fun x => x.client ≠ c) := rfl
+@[simp] theorem addStream_streams (s : State) (st : Stream) : (addStream s st).streams = st :: s.streams := rfl
+@[simp] theorem sendPark_streams (s : State) (c o : Nat) (t : Task) :
+    (sendPark s c o t).streams = ⟨c, o, t.gen, s.now + s.cfg.updateInterval⟩ :: s.streams.filter (fun x => x.client ≠ c) := rfl
+@[simp] theorem sendPark_events (s : State) (c o : Nat) (t : Task) :
+    (sendPark s c o t).events = .msg c o t.stage false 0 0 :: s.events := rfl
+@[simp] theorem sendDone_streams (s : State) (c o : Nat) (op : Op) (t : Task) (r : Resp) :
+    (sendDone s c o op t r).streams = s.streams.filter (fun x => x.client ≠ c) := by simp [sendDone]
+@[simp] theorem sendDone_events (s : State) (c o : Nat) (op : Op) (t : Task) (r : Resp) :
+    (sendDone s c o op t r).events = .ret c cOK :: .msg c o t.stage true r.code r.tok :: s.events := by simp [sendDone]
+@[simp] theorem leaveS_streams (s : State) (c : Nat) (st : Stream) (op : Op) (code : Nat) :
+    (leaveS s c st op code).streams = s.streams.filter (fun x => x.client ≠ c) := by simp [leaveS]
+@[simp] theorem leaveS_events (s : State) (c : Nat) (st : Stream) (op : Op) (code : Nat) :
+    (leaveS s c st op code).events = .ret c code :: s.events := by simp [leaveS]
+@[simp] theorem filterWorkers_workers (s : State) (q : ScqId) (w : WId) :
+    (filterWorkers s q w).workers = s.workers.filter (fun x => ¬ (x.scq = q ∧ x.id = w)) := rfl
+@[simp] theorem addOpS_nextOp (s : State) (tid : Nat) (t : Task) (inv : List Nat) (prio : Int) :
+    (addOpS s tid t inv prio).nextOp = s.nextOp + 1 := rfl
+@[simp] theorem newTaskS_nextOp (s : State) (digest dkey : Nat) (dnc : Bool) (q : ScqId) (inv : List Nat) (prio : Int) :
+    (newTaskS s digest dkey dnc q inv prio).nextOp = s.nextOp + 1 := by unfold newTaskS; split <;> rfl
+@[simp] theorem newTaskS_nextTask (s : State) (digest dkey : Nat) (dnc : Bool) (q : ScqId) (inv : List Nat) (prio : Int) :
+    (newTaskS s digest dkey dnc q inv prio).nextTask = s.nextTask + 1 := by unfold newTaskS; split <;> rfl
+@[simp] theorem newTaskS_nextLearner (s : State) (digest dkey : Nat) (dnc : Bool) (q : ScqId) (inv : List Nat) (prio : Int) :
+    (newTaskS s digest dkey dnc q inv prio).nextLearner = s.nextLearner + 1 := by unfold newTaskS; split <;> rfl
+@[simp] theorem newTaskS_events (s : State) (digest dkey : Nat) (dnc : Bool) (q : ScqId) (inv : List Nat) (prio : Int) :
+    (newTaskS s digest dkey dnc q inv prio).events = .selSelect s.nextLearner :: s.events := by unfold newTaskS; split <;> rfl
+@[simp] theorem newTaskS_tasks (s : State) (digest dkey : Nat) (dnc : Bool) (q : ScqId) (inv : List Nat) (prio : Int) :
+    (newTaskS s digest dkey dnc q inv prio).tasks = aset s.nextTask (newTask s digest dkey dnc q) s.tasks := by
+  unfold newTaskS; split <;> rfl
+@[simp] theorem newTaskS_ops (s : State) (digest dkey : Nat) (dnc : Bool) (q : ScqId) (inv : List Nat) (prio : Int) :
+    (newTaskS s digest dkey dnc q inv prio).ops = aset s.nextOp (newOp s inv prio) s.ops := by
+  unfold newTaskS; split <;> rfl
+@[simp] theorem addOpS_tasks (s : State) (tid : Nat) (t : Task) (inv : List Nat) (prio : Int) :
+    (addOpS s tid t inv prio).tasks = aset t.id { t with ops := t.ops ++ [s.nextOp] } s.tasks := rfl
+@[simp] theorem addOpS_ops (s : State) (tid : Nat) (t : Task) (inv : List Nat) (prio : Int) :
+    (addOpS s tid t inv prio).ops = aset s.nextOp { name := s.nextOp, task := tid, inv := inv, prio := prio, waiters := 0, mayExistWithoutWaiters := false } s.ops := rfl
+@[simp] theorem addTerm_terms (s : State) (tc : TermCall) : (addTerm s tc).terms = tc :: s.terms := rfl
+@[simp] theorem dropTerm_terms (s : State) (id : Nat) : (dropTerm s id).terms = s.terms.filter (fun t => t.id ≠ id) := rfl
+@[simp] theorem addWorker_workers (s : State) (q : ScqId) (w : WId) :
+    (addWorker s q w).workers = s.workers ++ [{ scq := q, id := w, task := none, terminating := false, parked := false, woken := false, inSync := true, drainWait := none, timer := none }] := rfl
 @[simp] theorem finalizeS_tasks (s : State) (t : Task) (r : Resp) :
     (finalizeS s t r).tasks = aset t.id (bumpGen { t with response := some r }) s.tasks := by
   simp [finalizeS, bumpGen]
